@@ -284,9 +284,23 @@ class Session(object):
         import random
         srng = random.Random(renv.get("script_seed", 0))
         est = max(float(case.get("est_events", 1000.0)), float(case.get("est_steps", 0.0)))
+        # the estimate travels with the case; recompute it for the case as it is now (a minimised case has other
+        # parameters / horizon than the one the stored number was made for)
+        try:
+            horizons = [float(op["T"]) for op in case["ops"] if "T" in op] + \
+                       [float(op["grid"][-1]) for op in case["ops"] if op.get("grid")]
+            if horizons:
+                est = max(est, float(estimate_events(self.ref, self.theta, list(self.x0), self.t0, max(horizons))))
+        except Exception:
+            pass
         self.cap = int(60 * est * (self.ref.m + 1) + 50000)
         self.r = seams.RSeam(self.pg.ss, mode=renv.get("mode", "natural"), script_rng=srng,
-                             faults=renv.get("faults", {}), cap=self.cap).install()
+                             faults=renv.get("faults", {}), cap=self.cap, sim_module=self.pg.sim).install()
+        # adversarially tiny clocks let events happen without time passing; with births whose rate grows with the
+        # population that feeds back (more individuals -> more events per unit time): no bound on the number of
+        # events before the horizon follows from the rates, so the step cap is then not a verdict
+        self.cap_is_verdict = not (renv.get("mode") == "scripted" and renv.get("faults", {}).get("tiny_clock") and
+                                   any(tr["type"] == "B" for pr in case["model"].get("processes", []) for tr in pr["trans"]))
 
     def close(self):
         self.r.remove()
@@ -547,7 +561,7 @@ def run_paths(sess, op, out, stats, log):
         stats["explosion_inconclusive"] = stats.get("explosion_inconclusive", 0) + 1
         return results
     except seams.StepCap as e:
-        if exact or op.get("pre_tau") is not None:
+        if (exact or op.get("pre_tau") is not None) and sess.cap_is_verdict:
             out.append(fail("C04.termination.stepcap", -1, "simulation did not return: %s (estimate %s events, %s steps)" % (
                 e, sess.case.get("est_events"), sess.case.get("est_steps"))))
         else:
